@@ -115,6 +115,16 @@ CLAIMS['C17'] = ('other',
     'pairs follow by transitivity). Option sets from which PLY cannot build a parser (supportIndex without '
     'supportSmiV1Keywords) are outside the quantifier and reported as skipped. Trusted: PLY table construction and '
     'LR driver (the tables are read from the parser object it built).', '5 C17')
+CLAIMS['C18'] = ('exploration',
+    'BOUNDED, not proved: JsonCodeGen.genIndex is outside the verifier\'s reach (closures, for/else, sorted(key=), '
+    'aliasing of nested dict-of-list values, json), so a bounded stand-in decides it: every scenario of a stated '
+    'small scope (3 modules, OID sets of up to 2/3 OIDs from a universe with digit-sharing siblings and nested '
+    'subtrees, 1-3 incremental builds) is executed on the real function and the clauses of the property (identity / '
+    'enterprise / compliance entries, component-wise cover naming the module, only-own listing, monotone rebuild, '
+    're-indexing changes nothing) are evaluated on the result. MibCompiler.buildIndex, which feeds it, is under a '
+    'discharged contract (old index forwarded, result stored under the index name, dryRun, error handling).',
+    'Scope: quick 8.6k scenarios, thorough 0.8M scenarios in 16 shards; outside the scope nothing is claimed. '
+    'D7 (string prefix) and D33 (order-dependent reduction) were found by this check and fixed.', '5 C18')
 NOT_YET = {
 }
 
